@@ -120,6 +120,8 @@ def run(out, tier, seed):
     out.cov["rule"] = ("exhaustive 'rules': one function per result type of a representative set x every typing rule once (budget 1) - literals, "
                        "every binary and prefix operator, tuples/indexing, lists/spreads, Result via generic helpers, generic Box, field access, "
                        "labelled constructor arguments in any order, lambdas (parameter pinned by every operator on either side), captures, "
+                       "function-typed locals (annotated parameters, let-bound lambdas: called, piped into, passed to apply / map, called under a "
+                       "prefix operator in a discarded statement), "
                        "pipelines, case over every pattern rule, let over every value type; every operator as the pin of an unannotated "
                        "parameter on either side; every rule once inside a generic function (rigid variables). "
                        "Exhaustive 'sigs': every parameter list up to length 4 over {Int, List(Int), a, b annotated; "
